@@ -319,8 +319,10 @@ class CheckpointEmit(KafkaBase):
                    text='emitted == [_part] and len(emitted_md) == 1 and len(emitted_md[0]) == 1 and has_ref(emitted_md[0], 0) '
                         'and len(new_counters) == 1 and ref_of(emitted_md[0], 0) == new_counters[0][0]',
                    note='exactly this batch is emitted, carrying one metadata dictionary whose ref is a new RefCounter'),
-            Clause('C09.counter_starts_at_zero_on_the_source_loop', ['C09', 'C04'], when='yield:1',
-                   text='new_counters[0][1] == 0 and new_counters[0][3] == self.loop'),
+            Clause('C09.counter_starts_at_zero_on_the_source_loop', ['C09', 'C04', 'C19'], when='yield:1',
+                   text='new_counters[0][1] == 0 and new_counters[0][3] == self.loop',
+                   note='C19: a counter without the loop of its source falls back to the shared background loop (and starts its '
+                        'thread), also for a source declared asynchronous'),
             Clause('C09.completion_callback_commits_this_batch', ['C09', 'C04'], fn=cb_commits_this_batch, when='yield:1',
                    kind='protocol', note='the counter callback is commit(<this batch>)'),
         ]
